@@ -260,18 +260,22 @@ ob_e2(
 
 
 # ---- c: misspellings --------------------------------------------------------------------------
-def c20_misspell(n: int, underscore: bool, c0: int, c1: int, c2: int, c3: int) -> bool:
+def c20_misspell(n: int, underscore: bool, u0: bool, u1: bool, u2: bool, c0: int, c1: int, c2: int, c3: int) -> bool:
     """
     vpre: 97 <= c0 <= 122 and 97 <= c1 <= 122 and 97 <= c2 <= 122 and 97 <= c3 <= 122
     vpost: _ == True
     """
     from pyxform.validators.pyxform.sheet_misspellings import find_sheet_misspellings
 
-    name = ("_" if underscore else "") + S(*((c0, c1, c2, c3)[:n]))
+    # sheet names are matched case-insensitively: letter case of the first three characters is symbolic
+    cs = [c0 - 32 if u0 else c0, c1 - 32 if u1 else c1, c2 - 32 if u2 else c2, c3]
+    name = ("_" if underscore else "") + S(*(cs[:n]))
     key = "osm"  # the shortest supported sheet name: edit radius 2 is reachable with <= 4 symbolic characters
     msg = find_sheet_misspellings(key=key, keys=[name, "survey"])
     d = _ref_lev(name.lower(), key)
-    want = d <= 2 and not underscore and name not in ("survey", "choices", "settings", "external_choices", "entities", "osm")
+    if name.lower() == key:
+        return True  # call-site precondition: the sheet is missing (readers match sheet names case-insensitively)
+    want = d <= 2 and not underscore
     if want:
         return msg is not None and ("'" + name + "'") in msg and "'survey'" not in msg
     return msg is None
@@ -300,7 +304,7 @@ specialise(
     timeout=600,
     kernel=(K[6], K[7]),
     shims=(),
-    symbolic="candidate sheet name of n symbolic lower-case letters, underscore prefix (boolean)",
+    symbolic="candidate sheet name of n symbolic letters with symbolic letter case on the first three, underscore prefix (boolean)",
     bounds="key 'osm' (distance threshold reachable within 4 characters); recursive reference edit distance",
     weight=100,
 )
